@@ -351,7 +351,7 @@ PROPS = {
         assumptions=["statistical reachability check: false-alarm probability <= 1e-12 per (size, sparsity) setting by construction of the number of draws"],
     ),
     "C14": dict(
-        jobs=lambda tier: both(4, None, stall_s=240, wall_s=3000),
+        jobs=lambda tier: both(4, None, stall_s=240, wall_s=3000, cap_mb=4096),
         pre=c14_pre,
         post=c14_post,
         eval_keys=["runs"],
